@@ -29,6 +29,7 @@ func c03Seed8(r *Report) {
 
 func c07Seed8(r *Report) {
 	p := r.P
+	monotoneFlagsIn(r, "C07.flags.loop-carried-flags-are-sticky", 3, "network/transport/v2", "network/transport/v2/gossip", "network/dag/tree")
 	const dag = "network/dag"
 	// C07-m (reported by C06.add.recheck-present only; repeats C06-a / C08-c): a transaction delivered twice at the same time
 	// is inserted into the XOR/IBLT summaries once — inside the write transaction nothing is written before presence was
@@ -252,6 +253,8 @@ func c12Seed8(r *Report) {
 
 func c13Seed8(r *Report) {
 	p := r.P
+	// generic: a "committed by every method" / "all present" style flag carried over a loop never forgets an earlier element
+	monotoneFlagsIn(r, "C13.flags.loop-carried-flags-are-sticky", 1, "vdr/didsubject")
 	// C13-m: "pending" means: still in the change log, however long ago it was written — the sweep, not the clock, decides
 	// about an interrupted operation; a later operation never builds on a version the sweep may still remove
 	np := p.Func("vdr/didsubject", "", "noPendingChanges")
